@@ -47,6 +47,10 @@ type Config struct {
 	Client    litefs.Client // default: http client
 	HTTP      bool          // start the HTTP API server on 127.0.0.1:0
 	Tune      func(s *litefs.Store)
+	// KernelMount mounts the file system for real (driver B): the kernel's page
+	// cache and lock translation are in play and LiteFS's own Invalidator talks
+	// to the kernel. The in-process File API must not be used on such a node.
+	KernelMount bool
 	// PreOpen runs after the store is built but before Store.Open (install hooks).
 	PreOpen func(n *Node)
 }
@@ -69,7 +73,8 @@ type Node struct {
 	mu     sync.Mutex
 	exits  []ExitEvent
 	panics []*PanicError
-	closed atomic.Bool
+	closed  atomic.Bool
+	mounted bool
 }
 
 // NewNode builds and opens a node.
@@ -94,11 +99,20 @@ func NewNode(cfg Config) (*Node, error) {
 		cfg.PreOpen(n)
 	}
 	n.FS = lfuse.NewFileSystem(cfg.Dir+"-mnt", st)
-	n.FS.VerifAttachNullServer()
+	if cfg.KernelMount {
+		if err := n.FS.Mount(true); err != nil {
+			unregisterNode(n)
+			return nil, fmt.Errorf("kernel mount: %w", err)
+		}
+		n.mounted = true
+		st.Invalidator = n.FS
+	} else {
+		n.FS.VerifAttachNullServer()
+		n.Cache = newPageCache(n)
+		st.Invalidator = n.Cache
+	}
 	root, _ := n.FS.Root()
 	n.Root = root.(*lfuse.RootNode)
-	n.Cache = newPageCache(n)
-	st.Invalidator = n.Cache
 	if cfg.Tune != nil {
 		cfg.Tune(st)
 	}
@@ -115,10 +129,23 @@ func NewNode(cfg Config) (*Node, error) {
 			_ = n.Server.Close()
 		}
 		st.Close()
+		n.unmount()
 		unregisterNode(n)
 		return nil, err
 	}
 	return n, nil
+}
+
+// MountDir is the mount point of a kernel-mounted node.
+func (n *Node) MountDir() string { return n.Cfg.Dir + "-mnt" }
+
+func (n *Node) unmount() {
+	if n.mounted {
+		n.mounted = false
+		if err := n.FS.Unmount(); err != nil {
+			_ = syscall.Unmount(n.MountDir(), syscall.MNT_DETACH)
+		}
+	}
 }
 
 // URL returns the node's HTTP base URL ("" without a server).
@@ -175,6 +202,7 @@ func (n *Node) Close() {
 		_ = n.Server.Close()
 	}
 	_ = n.Store.Close()
+	n.unmount()
 	unregisterNode(n)
 }
 
